@@ -12,6 +12,7 @@ import Driver.C20
 import Driver.C16
 import Driver.C12
 import Driver.Crash
+import Driver.C03
 /-! Line-protocol driver. Usage: `drv <property>`; stdin: `op args… | impl-output`;
     stdout: one `MISMATCH`/`MONITOR` line per problem and a final `DONE` summary with coverage tags. -/
 open Drv
@@ -101,6 +102,7 @@ def main (args : List String) : IO UInt32 := do
   | ["C12"] => finish (← loopStateful (Drv.C12.step true) h {} {})
   | ["C12", "ideal"] => finish (← loopStateful (Drv.C12.step false) h {} {})
   | ["crash"] => finish (← loopStateful Drv.Crash.step h {} {})
+  | "C03" :: mode => finish (← loopStateful (Drv.C03.step (mode.headD "auto")) h {} {})
   | ["inrange"] => finish (← loopStateless Drv.Store.inRangeStep h {})
   | ["store", prop] => finish (← loopStateful (Drv.Store.step prop) h {} {})
   | _ => IO.eprintln "usage: drv <property>"; return 2
